@@ -488,15 +488,16 @@ Section Names.
   Lemma subtree_set_name t nm q : q <> [] -> subtree_at (set_name t nm) q = subtree_at t q.
   Proof. destruct q; [congruence|]. intros _. simpl. unfold set_name. rewrite children_set_meta. reflexivity. Qed.
 
-  Theorem auto_name_with_spec t t' m :
-    auto_name_with letters handles t = Some (t', m) ->
+  (* the naming proper (what runs after _clear_names); the exact clause needs a tree without names *)
+  Theorem name_tree_spec t t' m :
+    name_tree letters handles t = Some (t', m) ->
     NoDup (map fst m) /\
     (unnamed t -> forall nm q, In (nm, q) m <-> name_at t' q = Some nm) /\
     (forall q, In q (map snd m) <->
        (operand_path t q \/ ((forall q', ~ operand_path t q') /\ q = []))) /\
     (forall nm q, In (nm, q) m -> name_at t' q = Some nm).
   Proof.
-    unfold auto_name_with.
+    unfold name_tree.
     destruct (an_go t [] None) as [[[t0 st] mp]|] eqn:Hgo; [|discriminate].
     pose proof (an_go_nodup _ _ _ _ _ _ Hgo) as Hnd.
     pose proof (an_go_paths t _ _ _ _ _ Hgo) as Hpaths.
@@ -539,12 +540,118 @@ Section Names.
         * intros nm q Hin. destruct (Hfw nm q Hin) as [q1 [_ [Hq Hnm]]]. simpl in Hq. subst q1. exact Hnm.
   Qed.
 
-  Theorem auto_name_with_total t : exists t' m, auto_name_with letters handles t = Some (t', m).
+  Theorem name_tree_total t : exists t' m, name_tree letters handles t = Some (t', m).
   Proof.
-    unfold auto_name_with.
+    unfold name_tree.
     destruct (an_go_total t [] None I) as [t0 [st [mp [Hgo Hwf]]]]. rewrite Hgo.
     destruct mp; [|eauto].
     destruct (next_name_total st Hwf) as [nm [Hn _]]. rewrite Hn. eauto.
   Qed.
+
+  (* ---- TreeAutoNamer._clear_names: no name is left anywhere, nothing else changes *)
+
+  Lemma clear_list_map f l : clear_list f l = map f l.
+  Proof. induction l as [|c l IH]; simpl; [reflexivity|]. f_equal; try exact IH. Qed.
+
+  Lemma clear_names_unfold t :
+    clear_names t = rebuild (set_name t None) (map clear_names (children t)).
+  Proof. rewrite <- clear_list_map. destruct t; reflexivity. Qed.
+
+  Lemma children_clear_names t : children (clear_names t) = map clear_names (children t).
+  Proof.
+    rewrite clear_names_unfold. apply children_rebuild.
+    rewrite map_length. unfold set_name. rewrite children_set_meta. reflexivity.
+  Qed.
+
+  Lemma name_of_clear_names t : name_of (clear_names t) = None.
+  Proof.
+    rewrite clear_names_unfold. unfold name_of. rewrite meta_rebuild. unfold set_name.
+    rewrite meta_set_meta. reflexivity.
+  Qed.
+
+  Lemma cls_clear_names t : cls_of (clear_names t) = cls_of t.
+  Proof. rewrite clear_names_unfold, cls_rebuild. unfold set_name. apply cls_set_meta. Qed.
+
+  Lemma nth_error_map_opt {A B} (f : A -> B) : forall l i,
+    nth_error (map f l) i = option_map f (nth_error l i).
+  Proof. induction l as [|x l IH]; intros [|i]; simpl; auto. Qed.
+
+  Lemma subtree_clear_names : forall q t,
+    subtree_at (clear_names t) q = option_map clear_names (subtree_at t q).
+  Proof.
+    induction q as [|i q IH]; intros t; simpl; [reflexivity|].
+    rewrite children_clear_names, nth_error_map_opt.
+    destruct (nth_error (children t) i) as [c|]; simpl; [apply IH|reflexivity].
+  Qed.
+
+  Lemma clear_names_unnamed t : unnamed (clear_names t).
+  Proof.
+    intros q. unfold name_at. rewrite subtree_clear_names.
+    destruct (subtree_at t q) as [n|]; simpl; [apply name_of_clear_names|reflexivity].
+  Qed.
+
+  (* a tree without names is left as it is *)
+  Lemma clear_names_id : forall t, unnamed t -> clear_names t = t.
+  Proof.
+    apply (item_children_ind (fun t => unnamed t -> clear_names t = t)). intros t IH Hu.
+    rewrite clear_names_unfold.
+    assert (Hm : map clear_names (children t) = children t).
+    { assert (Hc : forall j c, nth_error (children t) j = Some c -> unnamed c)
+        by (intros j c Hn; exact (unnamed_child t j c Hu Hn)).
+      revert IH Hc. generalize (children t) as l.
+      induction l as [|c l IHl]; intros HF Hc; simpl; [reflexivity|].
+      inversion HF as [|? ? H1 H2]; subst. f_equal.
+      - apply H1. exact (Hc 0 c eq_refl).
+      - apply IHl; [exact H2|]. intros j c0 Hn. exact (Hc (S j) c0 Hn). }
+    rewrite Hm. pose proof (Hu []) as H0. unfold name_at in H0. simpl in H0.
+    unfold set_name, name_of in *. destruct t; simpl in *;
+      match goal with m : meta |- _ => destruct m; simpl in *; subst; reflexivity end.
+  Qed.
+
+  Lemma operand_path_clear_names t q : operand_path (clear_names t) q <-> operand_path t q.
+  Proof.
+    split.
+    - intros [q0 [i [n [Hq [Hs [Hh Hi]]]]]]. rewrite subtree_clear_names in Hs.
+      destruct (subtree_at t q0) as [n0|] eqn:E; [|discriminate]. simpl in Hs. inversion Hs; subst n.
+      exists q0, i, n0. rewrite cls_clear_names in Hh. rewrite children_clear_names, map_length in Hi.
+      auto.
+    - intros [q0 [i [n [Hq [Hs [Hh Hi]]]]]]. exists q0, i, (clear_names n).
+      rewrite subtree_clear_names, Hs, cls_clear_names, children_clear_names, map_length. auto.
+  Qed.
+
+  (* ---- TreeAutoNamer.visit = _clear_names, then the naming: exact for EVERY tree *)
+
+  Theorem auto_name_with_exact t t' m :
+    auto_name_with letters handles t = Some (t', m) ->
+    NoDup (map fst m) /\
+    (forall nm q, In (nm, q) m <-> name_at t' q = Some nm) /\
+    (forall q, In q (map snd m) <->
+       (operand_path t q \/ ((forall q', ~ operand_path t q') /\ q = []))).
+  Proof.
+    unfold auto_name_with. intros H.
+    destruct (name_tree_spec _ _ _ H) as [Hnd [Hex [Hp _]]].
+    split; [exact Hnd|]. split; [exact (Hex (clear_names_unnamed t))|].
+    intros q. rewrite (Hp q), operand_path_clear_names.
+    split; (intros [Ho|[Hn Hq]]; [left; exact Ho|right; split; [|exact Hq]]);
+      intros q' Hq'; apply (Hn q'); apply operand_path_clear_names; exact Hq'.
+  Qed.
+
+  (* the former shape (second clause under `unnamed t`, now a consequence of the unguarded one), kept for
+     the files that destruct it (PropagateProofs.v, PropagateWideProofs.v, props/C16.v) *)
+  Theorem auto_name_with_spec t t' m :
+    auto_name_with letters handles t = Some (t', m) ->
+    NoDup (map fst m) /\
+    (unnamed t -> forall nm q, In (nm, q) m <-> name_at t' q = Some nm) /\
+    (forall q, In q (map snd m) <->
+       (operand_path t q \/ ((forall q', ~ operand_path t q') /\ q = []))) /\
+    (forall nm q, In (nm, q) m -> name_at t' q = Some nm).
+  Proof.
+    intros H. destruct (auto_name_with_exact t t' m H) as [Hnd [Hex Hp]].
+    split; [exact Hnd|]. split; [intros _; exact Hex|]. split; [exact Hp|].
+    intros nm q Hin. apply Hex. exact Hin.
+  Qed.
+
+  Theorem auto_name_with_total t : exists t' m, auto_name_with letters handles t = Some (t', m).
+  Proof. unfold auto_name_with. apply name_tree_total. Qed.
 
 End Names.
